@@ -246,7 +246,12 @@ pub fn serve_credssp(io: &mut ServerIo, srv: &Value) -> bool {
     for p in srv.get("ti_extra").and_then(|x| x.as_array()).cloned().unwrap_or_default() {
         ti.extend(av_pair(p[0].as_u64().unwrap_or(5) as u16, &vec![0x41u8; p[1].as_u64().unwrap_or(0) as usize]));
     }
-    ti.extend(default_target_info(ts));
+    match srv.get("ti_mode").and_then(|x| x.as_str()).unwrap_or("") {
+        "no_timestamp" => { ti.extend(av_pair(2, &utf16le("RDPDOM"))); ti.extend(av_pair(1, &utf16le("RDPSRV"))); ti.extend(av_pair(0, &[])); }
+        "empty" => { ti.clear(); }
+        "eol_only" => { ti.clear(); ti.extend(av_pair(0, &[])); }
+        _ => ti.extend(default_target_info(ts)),
+    }
     let chal = ChallengeSpec { flags, challenge: [1, 2, 3, 4, 5, 6, 7, 8], target_name: utf16le(if srv.get("tname_odd").is_some() { "RDPSRV1" } else { "RDPSRV" }), target_info: ti };
     let cm = challenge_message(&chal);
     let mut first = ts_request(version, Some(&cm), None, None);
